@@ -496,7 +496,7 @@ def malformed_cases(seed, n, prefix="bad"):
                 if rng.random() < 0.2:
                     secs.append(1)
                 sid = 20 + len(ops)
-                ops += ["SO %d %s 10 0 10" % (sid, hx(Sn)), "SR %d" % sid,
+                ops += ["SO %d %s 10 0 10" % (sid, hx(Sn)), "SR %d" % sid, "STATS " + hx(Sn),
                         " ".join(("SS %d - 0 0 %d %s %d %s %d %s" % (sid, len(acks), " ".join(acks), len(mods), " ".join(mods),
                                                                       len(secs), " ".join(map(str, secs)))).split()),
                         "SR %d" % sid, "SC %d" % sid]
